@@ -41,6 +41,9 @@ type cfg struct {
 	// leaver: another subscriber is already there and cancels at some moment; the bus tidies it away during a
 	// publication, which must not cost the observed subscriber its registration
 	leaver bool
+	// nodup: the collection is configured WithNoDuplicates. What the subscriber "already holds" for an id ends with
+	// the item's removal: the same value written again afterwards is a new item, not a duplicate
+	nodup bool
 }
 
 func (c cfg) name() string {
@@ -51,6 +54,9 @@ func (c cfg) name() string {
 	n := fmt.Sprintf("%s/bp=%v,uo=%v,mask=%v/%s", c.kind, c.backpressure, c.updatesOnly, c.mask, strings.Join(ws, "|"))
 	if c.leaver {
 		n += "/+leaving-subscriber"
+	}
+	if c.nodup {
+		n += "/collection with no-duplicates"
 	}
 	return n
 }
@@ -70,6 +76,8 @@ func body(c cfg) func() {
 		var col *resource.Collection
 		if c.kind == "value" {
 			val = resource.NewValue(resource.WithInitialValue(msg(0)))
+		} else if c.nodup {
+			col = resource.NewCollection(resource.WithNoDuplicates(), resource.WithInitialRecord("a", msg(0)))
 		} else {
 			col = resource.NewCollection(resource.WithInitialRecord("a", msg(0)))
 		}
@@ -358,6 +366,16 @@ func main() {
 						h.Sched(c.name(), q, -1, body(c), hx.StdOracle)
 					}
 				}
+			}
+		}
+	}
+	// a collection with an equivalence: the item is removed and created again with the value it had (and with
+	// another one)
+	for _, bp := range []bool{true, false} {
+		for _, uo := range []bool{false, true} {
+			for _, w := range [][][]string{{{"del:a", "ups:a:0"}}, {{"upd:a:1", "del:a", "ups:a:1"}}, {{"del:a"}, {"ups:a:0"}}} {
+				c := cfg{kind: "coll", backpressure: bp, updatesOnly: uo, writers: w, nodup: true}
+				h.Sched(c.name(), -1, -1, body(c), hx.StdOracle)
 			}
 		}
 	}
